@@ -21,6 +21,15 @@ func globalInit(st *State, g *ssa.Global, o *Object) {
 		o.V = FuncV{Native: "pool.GetBuf"}
 	case "github.com/IrineSistiana/mosdns/v5/pkg/pool.ReleaseBuf":
 		o.V = FuncV{Native: "pool.ReleaseBuf"}
+	case "net/netip.z4", "net/netip.z6noz":
+		// unique.Make(addrDetail{...}): a handle is a struct holding a canonical pointer
+		ht := o.T.Underlying().(*types.Struct)
+		dt := ht.Field(0).Type().(*types.Pointer).Elem()
+		d := st.zero(dt).(*StructV)
+		if g.Name() == "z6noz" {
+			d.F[0] = st.tt.True
+		}
+		o.V = &StructV{F: []Value{Ptr{Obj: st.newObject(d, dt, "unique "+g.Name())}}}
 	}
 }
 
@@ -36,3 +45,5 @@ func init() {
 		return args[1]
 	})
 }
+
+var byteType = types.Typ[types.Uint8]
